@@ -14,6 +14,7 @@ pub struct GenParams {
     pub p_abort: usize,
     pub p_contract: usize,
     pub p_misuse: usize,
+    pub p_reconsider: usize,
     /// weights Always, Output, Ephemeral
     pub kind_w: [usize; 3],
     pub p_multi: usize,
@@ -35,6 +36,7 @@ impl GenParams {
             p_abort: 120,
             p_contract: 0,
             p_misuse: 0,
+            p_reconsider: 0,
             kind_w: [2, 4, 4],
             p_multi: 200,
             edge_density: 350,
@@ -70,9 +72,11 @@ pub fn params_for(prop: &str, thorough: bool) -> GenParams {
         "C05" => {
             p.profile = "C05";
             p.p_abort = 30;
+            p.p_reconsider = 80;
         }
         "C06" => {
             p.profile = "C06";
+            p.p_reconsider = 150;
             p.p_fail = 450;
             p.p_abort = 150;
             p.max_rounds = 6;
@@ -136,6 +140,7 @@ pub fn params_for(prop: &str, thorough: bool) -> GenParams {
         "C17" => {
             p.profile = "C17";
             p.p_fail = 350;
+            p.p_reconsider = 80;
         }
         "C18" => {
             p.profile = "C18";
@@ -218,6 +223,12 @@ pub fn draw_plan(r: &mut Rng, gp: &GenParams, present_defs: &[usize], defs: &[De
         if !ephs.is_empty() {
             let d = *r.pick(&ephs);
             plan.contract.insert(d, if r.chance(2, 3) { ContractMode::Semantic } else { ContractMode::Textual });
+        }
+    }
+    if r.chance(gp.p_reconsider, 1000) {
+        let k = 1 + r.below(3);
+        for _ in 0..k {
+            plan.reconsider.push(r.below(3 * n + 3) as u32);
         }
     }
     if r.chance(gp.p_misuse, 1000) {
